@@ -111,18 +111,19 @@ func stripPtr(e ast.Expr) ast.Expr {
 }
 
 type b1 struct {
-	c       *Ctx
-	isSet   *types.Func
-	read    *types.Func
-	bei     *types.Func
-	bodyF   *types.Var
-	rawGet  *types.Func // (*directive.Directives).GetValue
-	utField *types.Var  // core.JApiCore.userTypes
-	utGet   *types.Func // (*catalog.UserSchemas).GetValue
-	utEach  *types.Func
-	utSet   *types.Func
-	invOK   bool
-	invWhy  string
+	c        *Ctx
+	isSet    *types.Func
+	read     *types.Func
+	bei      *types.Func
+	bodyF    *types.Var
+	rawGet   *types.Func // (*directive.Directives).GetValue
+	utField  *types.Var  // core.JApiCore.userTypes
+	utGet    *types.Func // (*catalog.UserSchemas).GetValue
+	utEach   *types.Func
+	utSet    *types.Func
+	invOK    bool
+	invWhy   string
+	keyDepth int // how many helper parameters the key was followed through
 }
 
 // RuleB1: body-coordinates typestate.
@@ -352,7 +353,48 @@ func (b *b1) isUserTypesKey(cs callSite, cf *cfgx.Func, k ast.Expr, at ast.Node)
 		}
 		return cfgx.SameExpr(info, call.Args[0], k)
 	}
-	return cf.MustAt(at, gen, nil, nil)
+	if cf.MustAt(at, gen, nil, nil) {
+		return true
+	}
+	// the key is a parameter of a helper: it is a userTypes key when every caller passes one
+	return b.paramKeyOfCallers(cs, cf, k, b.keyDepth)
+}
+
+func (b *b1) paramKeyOfCallers(cs callSite, cf *cfgx.Func, k ast.Expr, depth int) bool {
+	info := cs.Pk.TypesInfo
+	id, ok := ast.Unparen(cf.Resolve(k)).(*ast.Ident)
+	if !ok || cs.Lit != nil || depth > 2 {
+		return false
+	}
+	pi := paramIndex(cs, info, info.ObjectOf(id))
+	self := declObj(cs)
+	if pi < 0 || self == nil || b.c.usedAsValue(self) || assignedAnywhere(info, cs.Decl.Body, info.ObjectOf(id)) {
+		return false
+	}
+	callers := b.c.callSitesOf(self)
+	if len(callers) == 0 {
+		return false
+	}
+	for _, up := range callers {
+		if pi >= len(up.Call.Args) {
+			return false
+		}
+		ucf := b.c.CFG(up.Pk, up.Body)
+		if !b.isUserTypesKeyDepth(up, ucf, up.Call.Args[pi], up.Call, depth+1) {
+			return false
+		}
+	}
+	return true
+}
+
+func (b *b1) isUserTypesKeyDepth(cs callSite, cf *cfgx.Func, k ast.Expr, at ast.Node, depth int) bool {
+	if depth > 2 {
+		return false
+	}
+	saved := b.keyDepth
+	b.keyDepth = depth
+	defer func() { b.keyDepth = saved }()
+	return b.isUserTypesKey(cs, cf, k, at)
 }
 
 // litPassedTo: the innermost literal of cs is an argument of a call to f on core.userTypes.
